@@ -21,7 +21,7 @@ Checks (one small `def` each, so that each has its own soundness lemma in `Proof
                 handles of one block
 * K6 (C12)      a union handle keeps its variant and block (ops other than `drop` / `dropAll`)
 * K7 (C08)      `make_mut` / `make_unique`: a sole owner keeps its allocation (no `Clone`, no allocation); a shared
-                handle is redirected to a fresh, solely owned allocation with one `Clone`, the old allocation loses one
+                handle is redirected to a fresh, solely owned allocation with EXACTLY one `Clone`, the old allocation loses one
                 owner, and no other handle on it sees the write; the write target shows the written value
 * K8 (C09)      `try_unwrap` (granted) / `into_inner` move the value out: no destructor, the allocation is released;
                 `unwrap_or_clone` on a sole owner neither clones nor destroys, on a shared handle clones exactly once
@@ -30,6 +30,9 @@ Checks (one small `def` each, so that each has its own soundness lemma in `Proof
                 do nothing else; a refused `into_thin` releases its argument
 * K10 (C15)     dropping a handle whose view is `MaybeUninit` runs no element destructor (only the header's);
                 `assume_init` is a cast
+* K11 (C06)     a constructor (`create`, `iterCtor`) that returns a handle delivers it as the sole owner (count 1) of a
+                fresh allocation that shows exactly the header and the elements handed in, in order; it allocates exactly
+                once and destroys none of the values handed in
 -/
 namespace M1
 namespace Mon
@@ -164,6 +167,10 @@ inductive Fail
   | thinRefusal (tag : String) (slot : Nat)                            -- K9
   | uninitDrop (tag : String) (slot : Nat)                             -- K10
   | assumeInitChanged (tag : String) (slot : Nat)                      -- K10
+  | ctorGone (tag : String) (slot : Nat)                               -- K11
+  | ctorShared (tag : String) (slot blk : Nat)                         -- K11
+  | ctorContents (tag : String) (slot : Nat)                           -- K11
+  | ctorEvents (tag : String) (slot : Nat)                             -- K11
 deriving Repr, DecidableEq, Inhabited
 
 def Fail.tag : Fail → String
@@ -171,7 +178,8 @@ def Fail.tag : Fail → String
   | .leak t .. | .gateVerdict t .. | .gateDecline t .. | .blockAddrOff t .. | .dataAddrZero t ..
   | .dataAddrDiffer t .. | .unionChanged t .. | .cowGone t .. | .cowMoved t .. | .cowKept t .. | .cowVisible t ..
   | .cowLost t .. | .unwrapEvents t .. | .unwrapOwners t .. | .thinChanged t .. | .thinRefusal t ..
-  | .uninitDrop t .. | .assumeInitChanged t .. => t
+  | .uninitDrop t .. | .assumeInitChanged t .. | .ctorGone t .. | .ctorShared t .. | .ctorContents t ..
+  | .ctorEvents t .. => t
 
 def Fail.msg : Fail → String
   | .countMismatch _ i b n k => s!"slot s{i} reports count {n} but {k} owning handle(s) refer to b{b}"
@@ -197,6 +205,10 @@ def Fail.msg : Fail → String
   | .thinRefusal _ i => s!"into_thin on s{i} panicked without releasing its argument"
   | .uninitDrop _ i => s!"dropping s{i} (MaybeUninit view) ran an element destructor"
   | .assumeInitChanged _ i => s!"assume_init on s{i} changed block or count, or emitted events"
+  | .ctorGone _ i => s!"the constructor for s{i} succeeded but the slot is empty"
+  | .ctorShared _ i b => s!"the constructor for s{i} did not deliver the sole owner (count 1) of a fresh allocation (b{b})"
+  | .ctorContents _ i => s!"the handle the constructor put in s{i} does not show exactly the header / elements handed in, in order"
+  | .ctorEvents _ i => s!"the constructor for s{i} destroyed a value handed in, or did not allocate exactly once (the new block)"
 
 /-! ### K1 -/
 
@@ -357,22 +369,8 @@ def Dig.target (d : Dig) : Option Nat :=
     | some (some it :: _) => some it.val
     | _ => none
 
-/-- the first element is shown and written -/
-def Dig.firstShown (d : Dig) : Bool :=
-  match d.elems with
-  | some (some _ :: _) => true
-  | _ => false
-
-/-- the write target, if the probe shows one, shows `v` -/
-def targetOk (q : SlotObs) (v : Nat) : Bool :=
-  match q.vals with
-  | some d => (match d.target with | some x => x == v | none => true)
-  | none => true
-
-/-- exactly one `Clone` for the value the redirected handle shows (none if it shows no value: a handle on a
-never-written slot — the model clones nothing then; the real library never gets there) -/
-def clonesOk (q : SlotObs) (clones : Nat) : Bool :=
-  clones == (if (match q.vals with | some d => d.firstShown | none => false) then 1 else 0)
+/-- the write target shows `v` -/
+def targetOk (q : SlotObs) (v : Nat) : Bool := (q.vals.bind Dig.target) == some v
 
 /-- another slot that was on `b`: still there, still on `b`, showing what it showed -/
 def k7Other (post : List (Nat × SlotObs)) (b src : Nat) (e : Nat × SlotObs) : Option Fail :=
@@ -397,7 +395,7 @@ def checkK7 (pre : List (Nat × SlotObs)) (op : Op) (o : Obs) : List Fail :=
           (if q.blk == p.blk && o.evs.countP isCloneEv == 0 && o.evs.countP isAllocEv == 0 then []
            else [.cowMoved "C08" src p.blk])
          else
-          (if q.blk != p.blk && clonesOk q (o.evs.countP isCloneEv) && ownersO o.slots q.blk == 1 &&
+          (if q.blk != p.blk && o.evs.countP isCloneEv == 1 && ownersO o.slots q.blk == 1 &&
               ownersO o.slots p.blk + 1 == ownersO pre p.blk then []
            else [.cowKept "C08" src p.blk]) ++
           pre.filterMap (k7Other o.slots p.blk src)) ++
@@ -504,6 +502,66 @@ def checkK10 (pre : List (Nat × SlotObs)) (op : Op) (o : Obs) : List Fail :=
     else []
   | _ => []
 
+/-! ### K11 (C06)
+
+A constructor that hands back a handle (status ok) moved every value it was given into ONE fresh allocation, each
+exactly once: the new slot is the sole owner (reported count 1, one probed slot on the block, no slot of the probe before
+the op on it), it shows exactly the header and the elements handed in, in order (`-` for the `new_uninit*` family, whose
+view is `MaybeUninit`), there is exactly one `alloc` event — for that block —, and no destructor ran for a value handed
+in.  For the iterator-driven constructors "handed in" is the header (ignored by `FromIterator`) and ALL the items of the
+script: a built result holds them all (`runIterCtor_spec`); lying `len()` / `size_hint()` answers end in a panic. -/
+
+/-- what the fresh handle of a plain constructor must show -/
+def ctorDig : Ctor → Dig
+  | .new v | .newB v | .fromBox v | .uniqueNew v => ⟨none, some [some v]⟩
+  | .fromVec vs => ⟨none, some (vs.map some)⟩
+  | .hsFromVec h vs | .hwlFromVec h _ vs => ⟨some h, some (vs.map some)⟩
+  | .newUninit | .uniqueNewUninit | .newUninitSlice _ | .uniqueNewUninitSlice _ => ⟨none, none⟩
+  | .hsUninit h _ => ⟨some h, none⟩
+
+/-- the header an iterator-driven constructor stores (`FromIterator` takes none) -/
+def iterHdr : IterCtor → Option Item → Option Item
+  | .hsFromIter, h | .thinFromIter, h => h
+  | _, _ => none
+
+/-- the identities of the values a digest shows (header first) -/
+def Dig.ids (d : Dig) : List Nat :=
+  (d.hdr.toList.map (·.id)) ++ ((d.elems.getD []).filterMap fun e => e.map (·.id))
+
+/-- the slot a constructor op fills, what the new handle must show, and the identities of the values handed in -/
+def ctorSpec : Op → Option (Nat × Dig × List Nat)
+  | .create dst c => some (dst, ctorDig c, (ctorDig c).ids)
+  | .iterCtor dst w h sc =>
+      some (dst, ⟨iterHdr w h, some (sc.items.map some)⟩, (Dig.mk (iterHdr w h) (some (sc.items.map some))).ids)
+  | _ => none
+
+/-- a destructor event for one of the given identities -/
+def isDropOf (ids : List Nat) : Event → Bool
+  | .drop id => ids.contains id
+  | _ => false
+
+/-- an allocation event for block `b` -/
+def isAllocOf (b : Nat) : Event → Bool
+  | .alloc b' _ _ => b' == b
+  | _ => false
+
+def checkK11 (pre : List (Nat × SlotObs)) (op : Op) (o : Obs) : List Fail :=
+  match ctorSpec op with
+  | none => []
+  | some (dst, d, ids) =>
+    if o.badOp || o.panicked then [] else
+    match lookupO pre dst with
+    | some _ => []
+    | none =>
+      match lookupO o.slots dst with
+      | none => [.ctorGone "C06" dst]
+      | some q =>
+        (if q.cnt.all (· == 1) && ownersO o.slots q.blk == 1 && ownersO pre q.blk == 0 then []
+         else [.ctorShared "C06" dst q.blk]) ++
+        (if q.vals == some d then [] else [.ctorContents "C06" dst]) ++
+        (if o.evs.countP (isDropOf ids) == 0 && o.evs.countP isAllocEv == 1 && o.evs.countP (isAllocOf q.blk) == 1
+         then [] else [.ctorEvents "C06" dst])
+
 /-! ### one observation -/
 
 /-- the op-independent checks K1 K2 K3 K5 (also run for driver-level ops that are not an `Op`) -/
@@ -517,7 +575,7 @@ def checkObsOnly (st : MSt) (o : Obs) : MSt × List Fail :=
 def checkOp (st : MSt) (op : Op) (o : Obs) : MSt × List Fail :=
   let r := checkObsOnly st o
   (r.1, r.2 ++ checkK4 st.pre op o ++ checkK6 st.pre op o ++ checkK7 st.pre op o ++ checkK8 st.pre op o ++
-    checkK9 st.pre op o ++ checkK10 st.pre op o)
+    checkK9 st.pre op o ++ checkK10 st.pre op o ++ checkK11 st.pre op o)
 
 def checkAll (st : MSt) : List (Op × Obs) → List Fail
   | [] => []
@@ -528,22 +586,11 @@ def checkTrace (l : List (Op × Obs)) : List Fail := checkAll MSt.init l
 
 /-- checks whose soundness on the model is not proved; they are NOT part of `checkOp` and `drv_mon` does not run them.
 
-The unconditional forms of two clauses of K7: a shared `make_mut` / `make_unique` emits exactly one `clone` event, and
-the write target afterwards shows the written value.  `checkK7` has them in the conditional forms `clonesOk` (one `clone`
-event iff the redirected handle shows a value) and `targetOk` (the target, if shown, shows the value).  The two forms
-agree whenever the handle's first element is written — true of every handle with an initialised view in every
-reachable state of the model (and always of the real library), but that invariant of `step` ("a view whose elements
-count as initialised only sees written slots") is not proved. -/
-def unprovenChecks (st : MSt) (op : Op) (o : Obs) : List Fail :=
-  match cowSrc op with
-  | none => []
-  | some (src, v) =>
-    if o.badOp || o.panicked then [] else
-    match lookupO st.pre src, lookupO o.slots src with
-    | some p, some q =>
-      (if ownersO st.pre p.blk != 1 && o.evs.countP isCloneEv != 1 then [.cowKept "C08" src p.blk] else []) ++
-      (if (q.vals.bind Dig.target) == some v then [] else [.cowLost "C08" src v])
-    | _, _ => []
+None at present.  (The unconditional forms of two clauses of K7 — a shared `make_mut` / `make_unique` emits exactly one
+`clone` event; the write target afterwards shows the written value — used to live here; with the invariant `InitInv`
+of `Proofs/HistInit.lean`, "a view whose elements count as initialised only sees written slots", they are proved and
+are part of `checkK7`.) -/
+def unprovenChecks (_st : MSt) (_op : Op) (_o : Obs) : List Fail := []
 
 end Mon
 end M1
